@@ -146,6 +146,8 @@ class Gen:
                             node['attrs'].append([an, 'preserve', repr('preserve')])
                         continue
                     txt, py = self.value(at)
+                    if at in ('xs:token', 'xs:string') and self.rng.random() < 0.12:
+                        txt, py = '', "''"                # the empty string is a value of these types (kind/@text="" means: print no chord suffix)
                     node['attrs'].append([an, txt, py])
             if c['simple']:
                 node['text'], node['py'] = self.value(c['simple'])
